@@ -105,7 +105,7 @@ def inproc_view(resp):
     for m in it["members"]:
         if m["kind"] == "fn":
             body = m["body"]
-    return {"params": [strip_ws(p) for p in it["params"]], "trait": strip_ws(it["trait"]),
+    return {"params": [strip_ws(p) for p in it["params"]], "trait": strip_ws(it["trait"]), "where": [strip_ws(w) for w in it.get("where", [])],
             "self": strip_ws(it["self_ty"]), "consts": [(m.group(1), m.group(2), m.group(3)) for m in CONST_RE.finditer(body)]}
 
 
@@ -329,8 +329,9 @@ def run(tier, seed, replay):
     chk = common.Check("C12", tier, seed)
     flags = G.read_flags()
     G.write_flags(flags)
-    chk.notes.append("switches read from try_from.rs: splice `%s` (parenthesised=%s), header `%s` (generics_on_repr=%s)" %
-                     (flags["splice_template"], flags["splice_parenthesised"], flags["header_template"], flags["generics_on_repr"]))
+    chk.notes.append("switches read from try_from.rs: splice `%s` (parenthesised=%s), header `%s` (generics_on_repr=%s)%s" %
+                     (flags["splice_template"], flags["splice_parenthesised"], flags["header_template"], flags["generics_on_repr"],
+                      "".join("; UNRECOGNISED: " + u for u in flags["unrecognised"])))
     inproc = common.build_inproc()
     st = common.check_proofs(chk, "C12", extra_dirs=("Gen",))
 
@@ -383,7 +384,15 @@ def run(tier, seed, replay):
             wrong_repr.add(c["id"])       # `E: TryFrom<%s>` does not exist: keep the module out of the crate
         # header
         mp, mt, ms = header_strings(hdr, lrepr)
-        if (mp, mt, ms) != (v["params"], v["trait"], v["self"]):
+        # declared bounds / where-clause must reappear on the impl (the model does not carry bounds)
+        decl_params = [strip_ws(x) for x in G.generics_decl(c)[1:-1].split(",")] if c["generics"] else []
+        decl_where = [strip_ws(G.where_clause(c)[len("where"):])] if G.where_clause(c) else []
+        if v["params"] != decl_params or v["where"] != decl_where:
+            chk.violation("generic-enum-header", {"case": c, "rust": G.enum_item(c), "impl_params": v["params"], "impl_where": v["where"]},
+                          "%s: the impl has parameters %s where %s" % (G.enum_item(c, False).replace("\n", " "), v["params"], v["where"]))
+            predicted_header_bad.add(c["id"])
+        real_params_unbounded = [x if x.startswith("const") else x.split(":")[0] for x in v["params"]]
+        if (mp, mt, ms) != (real_params_unbounded, v["trait"], v["self"]):
             chk.violation("tie-model-header", {"case": c, "model": [mp, mt, ms], "code": [v["params"], v["trait"], v["self"]]},
                           "model and expander disagree on the impl header of %s" % c["id"])
         args = strip_ws(G.generics_args(c))
@@ -487,7 +496,7 @@ def run(tier, seed, replay):
         if o["ok"] != expected or o["err_bad"] or o["err_good"] != npts - len(o["ok"]):
             wrong = sorted(set(o["ok"].items()) ^ set(expected.items()))[:6]
             unsafe = any(v["discr"] is not None and not G.plus_safe(v["discr"]) for v in c["variants"])
-            cls = "splice-precedence" if (unsafe and not flags["splice_parenthesised"]) else "inverse-mismatch"
+            cls = "splice-precedence" if unsafe else "inverse-mismatch"
             names = [G.vsrc(v) for v in c["variants"]]
             chk.violation(cls, {"case": c, "rust": G.enum_item(c), "observed_ok": sorted(o["ok"].items()),
                                 "expected_ok": sorted(expected.items()), "err_with_wrong_input": o["err_bad"]},
@@ -505,6 +514,10 @@ def run(tier, seed, replay):
     chk.bump("compiled_and_run", len(outs))
     chk.bump("rejected_by_rustc", len(failed))
 
+    if flags["unrecognised"] and not chk.violations:
+        chk.violation("source-template-unrecognised", {"unrecognised": flags["unrecognised"]},
+                      "try_from.rs no longer has the templates the model's switches are read from (%s) and the differential run "
+                      "found no failing input" % "; ".join(flags["unrecognised"]), no_input=True)
     if getattr(chk, "proof_broken", False) and not chk.violations:
         chk.violation("proof-broken", chk.proof_failure, "a C12 proof obligation no longer checks: %s" %
                       chk.proof_failure["failed"], no_input=True)
